@@ -471,12 +471,14 @@ class Unit:
     """one program message unit: `path` the header mnemonics as spelled, `colon` a leading `:`, `query` a trailing `?`,
     `params` the data elements as (token kind, payload bytes..., rendered text)"""
 
-    def __init__(self, path, query=False, colon=False, params=(), hws=b" ", pws=(b"", b""), tws=b""):
+    def __init__(self, path, query=False, colon=False, params=(), hws=b" ", pws=(b"", b""), tws=b"", lws=b""):
         self.path, self.query, self.colon, self.params = list(path), query, colon, list(params)
-        self.hws, self.pws, self.tws = hws, pws, tws
+        self.hws, self.pws, self.tws, self.lws = hws, pws, tws, lws
 
     def render(self):
-        s = (b":" if self.colon else b"") + b":".join(self.path) + (b"?" if self.query else b"")
+        # lws: white space in front of the header (IEEE 488.2 7.6.1.2 allows it before every program header - the first
+        # of a message included, defect F21)
+        s = self.lws + (b":" if self.colon else b"") + b":".join(self.path) + (b"?" if self.query else b"")
         if self.params:
             s += self.hws + (self.pws[0] + b"," + self.pws[1]).join(p[-1] for p in self.params)
         return s + self.tws
@@ -741,7 +743,7 @@ def corpus_resolve(tier):
         vs = header_variants(p, rich)
         for i, v in enumerate(vs):
             singles.append((p, v))
-            out.append([Unit(v, query=(i % 2 == 0))])
+            out.append([Unit(v, query=(i % 2 == 0), lws=(b"", b"", b" ", b"", b" \t ")[i % 5])])
     # second units: every node name alone and every parent:child chain, relative and absolute
     names = []
     def walk(node, chain):
@@ -772,7 +774,7 @@ def corpus_resolve(tier):
             n += 1
             if not rich and n % 19:
                 continue
-            out.append([Unit(f, query=True), Unit(s, query=True)])
+            out.append([Unit(f, query=True, lws=b" " if n % 2 else b""), Unit(s, query=True, lws=b"  " if n % 3 == 0 else b"")])
             if (rich or n % 3 == 0) and s[0][:1] != b"*":
                 out.append([Unit(f, query=True), Unit(s, query=True, colon=True)])
             if rich or n % 5 == 0:
@@ -974,3 +976,103 @@ def check(R, rule, name, tier, what, floor):
             "; ".join("%r%s: %s" % (m[:70], " [capacity %d]" % c if c is not None else "", d) for m, c, d in bad[:4]) + (" (+%d more)" % (len(bad) - 4) if len(bad) > 4 else ""))
     R.count("messages_" + name, len(rows))
     R.floor(rule, "whole messages (%s)" % name, len(rows), floor)
+
+
+# ---------------------------------------------------------------------------------------------------------------------
+# whole-message token sequences (C04): Tokenizer::new(message) and next() to the end, folded; expected sequence from the
+# structure the message was rendered from
+# ---------------------------------------------------------------------------------------------------------------------
+def expected_tokens(units, trailing_sep=False):
+    out = []
+    for i, u in enumerate(units):
+        if i:
+            out.append(("tok", "ProgramMessageUnitSeparator"))
+        if u.colon:
+            out.append(("tok", "HeaderMnemonicSeparator"))
+        for j, m in enumerate(u.path):
+            if j:
+                out.append(("tok", "HeaderMnemonicSeparator"))
+            out.append(("tok", "ProgramMnemonic", m))
+        if u.query:
+            out.append(("tok", "HeaderQuerySuffix"))
+        if u.params:
+            out.append(("tok", "ProgramHeaderSeparator"))
+            for j, p in enumerate(u.params):
+                if j:
+                    out.append(("tok", "ProgramDataSeparator"))
+                out.append(("tok",) + tuple(p[:-1]))
+    if trailing_sep:
+        out.append(("tok", "ProgramMessageUnitSeparator"))
+    return out
+
+
+def tokenize(msg, limit=80):
+    """-> list of token descriptions | ("undecided", why)"""
+    eng = engine()
+    u = eng.unit
+    try:
+        rs = eng.run(u.body("scpi::parser::tokenizer::Tokenizer::new"), [M._mkslice(msg, 0)])
+    except (fdai.TooManyPaths, RecursionError) as e:
+        return ("undecided", type(e).__name__)
+    if len(rs) != 1 or rs[0].outcome != "return":
+        return ("undecided", "Tokenizer::new: %d paths" % len(rs))
+    cell = Cell(rs[0].retval, "tokenizer")
+    out = []
+    for _ in range(limit):
+        st = fdai.State()
+        st.extra["obj"] = cell
+        try:
+            rr = eng.run(_C["tk_next"], [RefV(cell, (), True)], st)
+        except (fdai.TooManyPaths, RecursionError) as e:
+            return ("undecided", type(e).__name__)
+        if len(rr) != 1 or rr[0].outcome != "return":
+            return out + [("panic",)] if (len(rr) == 1 and rr[0].outcome == "panic") else ("undecided", "next(): %s" % [r.outcome for r in rr][:3])
+        v = rr[0].retval
+        if isinstance(v, EnumV) and v.name == "None":
+            return out
+        if not (isinstance(v, EnumV) and v.name == "Some"):
+            return ("undecided", "next() gives %r" % (v,))
+        d = _tok_desc(eng, rr[0], v.fields.get(0))
+        out.append(d)
+        if d[0] == "err":
+            return out
+        cell = rr[0].extra.get("obj")
+    return out + [("...",)]
+
+
+def token_table(tier):
+    key = ("tokens", tier)
+    if key in _C:
+        return _C[key]
+    rows = []
+    seen = set()
+    for name in ("params", "framing", "resolve"):
+        for i, row in enumerate(CORPORA[name](tier)):
+            us, trail = row[2], row[4]
+            post = row[5] if len(row) > 5 else []
+            us = list(us) + list(post)
+            if any(isinstance(u, Raw) for u in us) or (name == "resolve" and tier != "thorough" and i % 4):
+                continue
+            msg = render(us, trail)
+            if msg in seen:
+                continue
+            seen.add(msg)
+            exp = expected_tokens(us, trail)
+            got = tokenize(msg)
+            ok = isinstance(got, list) and got == exp
+            rows.append((msg, None if ok else ("undecided: %s" % (got[1],) if isinstance(got, tuple) else "lexed as %s, expected %s" % (_fmt_toks(got), _fmt_toks(exp)))))
+    _C[key] = rows
+    return rows
+
+
+def _fmt_toks(ts):
+    return "[" + " ".join((t[1][:14] + (":" + repr(t[2])[1:] if len(t) > 2 else "")) if t[0] == "tok" else "/".join(str(x) for x in t) for t in ts[:14]) + (" ..." if len(ts) > 14 else "") + "]"
+
+
+def check_tokens(R, rule, tier, floor):
+    rows = token_table(tier)
+    bad = [(m, d) for m, d in rows if d]
+    R.check(rows and not bad, rule, "messages:tokens", "Tokenizer::new and next() to the end on whole well-formed messages: the sequence of elements (kinds, payload bytes) is the decomposition the message was rendered from (%d messages)" % len(rows),
+            "; ".join("%r: %s" % (m[:70], d) for m, d in bad[:3]) + (" (+%d more)" % (len(bad) - 3) if len(bad) > 3 else ""))
+    R.count("messages_tokens", len(rows))
+    R.floor(rule, "whole messages (token sequences)", len(rows), floor)
